@@ -340,8 +340,18 @@ def converted_call(f, args, kwargs, caller_fn_scope=None, options=None):
       # https://docs.python.org/3/reference/datamodel.html#specialnames
       # TODO(mdan): Recurse into converted_call to simplify other verifications.
       # This should be handled in the same way as partials.
-      target_entity = f.__class__.__call__
-      effective_args = (f,) + args
+      call_attr = inspect.getattr_static(f.__class__, '__call__', None)
+      if isinstance(call_attr, staticmethod):
+        # A static __call__ does not receive the object.
+        target_entity = call_attr.__func__
+        effective_args = args
+      elif isinstance(call_attr, classmethod):
+        # A class-level __call__ receives the class, not the object.
+        target_entity = call_attr.__func__
+        effective_args = (f.__class__,) + args
+      else:
+        target_entity = f.__class__.__call__
+        effective_args = (f,) + args
 
     else:
       target_entity = f
